@@ -9,6 +9,8 @@
 #include "llbuild/Core/BuildDB.h"
 #include "llbuild/Core/BuildEngine.h"
 
+#include <llbuild/llbuild.h>
+
 #include <algorithm>
 #include <cassert>
 #include <functional>
@@ -30,7 +32,7 @@ struct Event {
   int cancelAt = -1;         // cancel the build when the step counter reaches this value
   std::string str() const {
     std::string r(1, kind);
-    if (kind != 'r') { r += ' '; r += key; }
+    if (kind != 'r' && kind != 'v') { r += ' '; r += key; }
     if (kind == 's') { r += ' '; r += char('0' + val); }
     if (kind == 'b') {
       if (cancelAt >= 0) r += " @" + std::to_string(cancelAt);
@@ -60,7 +62,7 @@ inline bool parseHistory(const std::string& s, History& h) {
     if (!(is >> t)) continue;
     Event e;
     e.kind = t[0];
-    if (e.kind != 'r') { if (!(is >> t)) return false; e.key = t[0]; }
+    if (e.kind != 'r' && e.kind != 'v') { if (!(is >> t)) return false; e.key = t[0]; }
     if (e.kind == 's') { if (!(is >> t)) return false; e.val = t[0] - '0'; }
     if (e.kind == 'b') {
       while (is >> t) {
@@ -232,6 +234,10 @@ struct Config {
   std::string dbPath;
   bool resolveForce = false;  // enable cycle resolution by ForceBuild
   bool checkC01 = true, checkC02 = true, checkProto = true, checkC07 = true, checkPersist = true;
+  bool capi = false;          // drive the engine through the libllbuild C API (C20)
+  bool hostileValues = false; // wrap every value in NUL / 0xFF bytes at the engine boundary
+  bool logEvents = false;     // record the client-visible event sequence (C20 twin comparison)
+  uint32_t clientVersion = 1; // database client schema version
   bool keepDB = false;        // do not delete an existing database file when the session starts (crash recovery)
   bool syncDefault = false;   // default choice at inputsAvailable: false = defer, true = complete synchronously
   std::map<char, std::string> rename;  // spec key -> engine key bytes
@@ -267,6 +273,22 @@ public:
   History done;              // events executed so far (for replay specs)
 
   std::unique_ptr<BuildEngine> engine;
+  llb_buildengine_t* cengine = nullptr;
+  std::vector<std::string> elog;
+  void ev(const std::string& e) { if (cfg.logEvents) elog.push_back(e); }
+  static std::string hexs(const std::string& b) {
+    static const char* d = "0123456789abcdef";
+    std::string o;
+    for (unsigned char c : b) { if (c >= 0x21 && c < 0x7f && c != '%') o += (char)c; else { o += '%'; o += d[c >> 4]; o += d[c & 15]; } }
+    return o;
+  }
+  // value transform at the engine boundary
+  std::string wrapV(const std::string& v) const { return cfg.hostileValues ? std::string("\0", 1) + v + std::string("\0\xff", 2) : v; }
+  std::string unwrapV(const std::string& b) const {
+    if (!cfg.hostileValues) return b;
+    if (b.size() >= 3 && b[0] == '\0' && b[b.size() - 2] == '\0' && (unsigned char)b.back() == 0xff) return b.substr(1, b.size() - 3);
+    return "<mangled:" + hexs(b) + ">";
+  }
   RecordingDB* rdb = nullptr;
   StubQueueDelegate qdel;
 
@@ -314,11 +336,12 @@ public:
     newEngine();
   }
   ~Session() {
-    verif::pointHook = nullptr;
+    if (verif::pointHookContext == this) verif::pointHook = nullptr;
     // After a stall the engine's frames were abandoned with its mutexes held:
     // destroying it would block, so it is leaked (the run is over anyway).
     if (dead) engine.release();
     engine.reset();
+    if (cengine && !dead) llb_buildengine_destroy(cengine);
   }
 
   std::string keyName(char c) const {
@@ -346,10 +369,11 @@ public:
     if (dead) engine.release();
     engine.reset();
     rdb = nullptr;
+    if (cfg.capi) { newEngineC(); return; }
     engine.reset(new BuildEngine(*this));
     if (cfg.useDB) {
       std::string err;
-      auto inner = createSQLiteBuildDB(cfg.dbPath, 1, /*recreate=*/true, &err);
+      auto inner = createSQLiteBuildDB(cfg.dbPath, cfg.clientVersion, /*recreate=*/true, &err);
       auto rec = new RecordingDB(std::move(inner));
       rdb = rec;
       rec->onSet = [this](const DBRecord& r) { onSetRuleResult(r); };
@@ -362,6 +386,7 @@ public:
     newEngine();
     mem = disk;
   }
+  void newEngineC();
 
   // ---- BuildEngineDelegate --------------------------------------------------
   std::unique_ptr<basic::ExecutionQueue> createExecutionQueue() override {
@@ -377,6 +402,7 @@ public:
     step();
     ++cycleReports;
     cycleReported = true;
+    { std::string l = "cycle"; for (auto* r : items) l += " " + hexs(r->key.str()); ev(l); }
     if (obs) {
       obs->cycle = true;
       obs->cycleKeys.clear();
@@ -384,17 +410,21 @@ public:
     }
   }
   void error(const Twine& message) override {
+    ev("error " + message.str());
     if (obs) obs->errors.push_back(message.str());
   }
 
   // ---- step counter / cancellation -------------------------------------------
+  int probeAt = -1;
+  std::function<void()> probe;  // C03 lock test: run something while this build holds the database
   void step() {
+    if (inBuild && stepNo + 1 == probeAt && probe) { auto p = probe; probe = nullptr; ++stepNo; p(); --stepNo; }
     if (!inBuild) {
       violate("callback-outside-build", "engine invoked a client callback while no build() call is active");
       return;
     }
     ++stepNo;
-    if (stepNo == cancelAt && !cancelIssued) {
+    if (stepNo == cancelAt && !cancelIssued && !cfg.capi) {
       cancelIssued = true;
       engine->cancelBuild();
     }
@@ -413,6 +443,8 @@ public:
     char key = 0;
     uv::RuleDef def;
     TaskInterface ti{nullptr, nullptr};
+    llb_task_interface_t cti{nullptr, nullptr};
+    Session* owner = nullptr;
     bool started = false, priorSeen = false, available = false, completed = false, otherSeen = false;
     struct Issued { uintptr_t id; char key; Mode mode; bool provided = false; std::string value; };
     std::vector<Issued> issued;
@@ -424,14 +456,22 @@ public:
     waitEdges.insert({t.key, r.key});
     DepRec d{keyName(r.key), r.mode == Mode::M, r.mode == Mode::S};
     issuedDeps[t.key].push_back(d);
-    if (r.mode == Mode::N) ti.request(keyName(r.key), id);
-    else if (r.mode == Mode::S) ti.requestSingleUse(keyName(r.key), id);
-    else ti.mustFollow(keyName(r.key));
+    std::string kn = keyName(r.key);
+    if (cfg.capi) {
+      llb_data_t kd{kn.size(), (const uint8_t*)kn.data()};
+      if (r.mode == Mode::M) llb_buildengine_task_must_follow(t.cti, &kd);
+      else llb_buildengine_task_needs_input(t.cti, &kd, id);  // the C API has no single-use request
+      return;
+    }
+    if (r.mode == Mode::N) ti.request(kn, id);
+    else if (r.mode == Mode::S) ti.requestSingleUse(kn, id);
+    else ti.mustFollow(kn);
   }
 
   void taskStart(TaskRec& t, TaskInterface ti) {
     step();
     if (t.started) violate("protocol-start-twice", std::string("start() delivered twice to ") + t.key);
+    ev(std::string("start ") + t.key);
     t.started = true;
     t.ti = ti;
     for (size_t i = 0; i < t.def.start.size(); ++i) issue(t, ti, t.def.start[i], i);
@@ -443,7 +483,7 @@ public:
       violate("protocol-prior-order", std::string("providePriorValue out of order for ") + t.key);
     t.priorSeen = true;
     auto& sh = mem[t.key];
-    std::string pv(v.begin(), v.end());
+    std::string pv = unwrapV(std::string(v.begin(), v.end()));
     if (!sh.interrupted) {
       if (!sh.ever || sh.sig != t.def.sig)
         violate("protocol-prior-unexpected", std::string("prior value provided to ") + t.key +
@@ -455,14 +495,16 @@ public:
   void taskProvide(TaskRec& t, TaskInterface ti, uintptr_t id, const KeyType& key, const ValueType& value) {
     step();
     t.otherSeen = true;
-    std::string v(value.begin(), value.end());
+    std::string raw(value.begin(), value.end());
+    std::string v = unwrapV(raw);
+    ev(std::string("provide ") + t.key + " " + std::to_string(id) + " " + hexs(raw));
     TaskRec::Issued* is = nullptr;
     for (auto& i : t.issued) if (i.id == id && i.mode != Mode::M) is = &i;
     if (cfg.checkProto) {
       if (!t.started || t.available) violate("protocol-provide-order", std::string("provideValue outside start..inputsAvailable for ") + t.key);
       if (!is) violate("protocol-provide-unrequested", std::string("provideValue with unrequested id for ") + t.key);
       else if (is->provided) violate("protocol-provide-twice", std::string("input ") + is->key + " provided twice to " + t.key);
-      else if (keyName(is->key) != key.str()) violate("protocol-provide-key", std::string("input id/key mismatch for ") + t.key);
+      else if (!cfg.capi && keyName(is->key) != key.str()) violate("protocol-provide-key", std::string("input id/key mismatch for ") + t.key);
     }
     if (!is) return;
     is->provided = true;
@@ -492,7 +534,8 @@ public:
       }
     }
     t.available = true;
-    t.ti = ti;
+    if (!cfg.capi) t.ti = ti;
+    ev(std::string("available ") + t.key);
     int c = chooser ? chooser->choose(2) : 0;
     bool sync = cfg.syncDefault ? (c == 0) : (c == 1);
     if (sync) finish(t);
@@ -509,7 +552,9 @@ public:
         for (auto& i : t.issued) if ((int)i.id == d.discOn) fire = uv::parity(i.value) == d.discPar;
       if (fire) {
         reads.push_back(uv::leafValue(d.discLeaf, ext.s[d.discLeaf]));
-        t.ti.discoveredDependency(keyName(d.discLeaf));
+        std::string dn = keyName(d.discLeaf);
+        if (cfg.capi) { llb_data_t kd{dn.size(), (const uint8_t*)dn.data()}; llb_buildengine_task_discovered_dependency(t.cti, &kd); }
+        else t.ti.discoveredDependency(dn);
         issuedDeps[t.key].push_back({keyName(d.discLeaf), false, false});
       }
     }
@@ -523,7 +568,10 @@ public:
     // Mirror of the engine's "changed" notion: first result, different bytes, or forced.
     if (sh.lastValue != v || force) sh.changeTick = ++tick;
     sh.lastValue = v;
-    t.ti.complete(ValueType(v.begin(), v.end()), force);
+    std::string wv = wrapV(v);
+    ev(std::string("complete ") + t.key + " " + hexs(wv) + (force ? " force" : ""));
+    if (cfg.capi) { llb_data_t vd{wv.size(), (const uint8_t*)wv.data()}; llb_buildengine_task_is_complete(t.cti, &vd, force); }
+    else t.ti.complete(ValueType(wv.begin(), wv.end()), force);
   }
 
   // ---- hook points ---------------------------------------------------------------
@@ -562,17 +610,20 @@ public:
   // ---- rule callbacks ---------------------------------------------------------------
   bool ruleValid(char k, const uv::RuleDef& d, const ValueType& value) {
     step();
-    std::string v(value.begin(), value.end());
+    std::string raw(value.begin(), value.end());
+    std::string v = unwrapV(raw);
     bool ok;
     if (uv::isLeafKey(k)) ok = v == uv::leafValue(k, ext.s[k]);
     else if (d.validity == 0) ok = true;
     else if (d.validity == 1) ok = false;
     else { auto it = ext.o.find(k); ok = it != ext.o.end() && it->second == v; }
     if (!ok) validFalse.insert(k);
+    ev(std::string("valid ") + k + " " + hexs(raw) + (ok ? " yes" : " no"));
     return ok;
   }
   void ruleStatus(char k, Rule::StatusKind s) {
     step();
+    ev(std::string("status ") + k + " " + std::to_string((int)s));
     if (s == Rule::StatusKind::IsScanning) return;
     doneThisBuild.insert(k);
     auto& sh = mem[k];
@@ -591,6 +642,8 @@ public:
     }
   }
   Task* ruleCreateTask(char k, const uv::RuleDef& d);
+  void registerTask(char k, const uv::RuleDef& d, TaskRec* rec);
+  void taskGone(TaskRec* rec);
 
   void onSetRuleResult(const DBRecord& r) {
     char k = specKey(r.key);
@@ -601,7 +654,7 @@ public:
       violate("persisted-uncompleted", "engine persisted a result for " + r.key + " whose task did not complete in this build");
       return;
     }
-    if (r.value != completedValue[k])
+    if (r.value != wrapV(completedValue[k]))
       violate("persisted-wrong-value", "persisted value of " + r.key + " is '" + r.value + "', task completed with '" + completedValue[k] + "'");
     // The statement demands that what is persisted belongs to the execution that
     // produced the value: same dependencies with the same flags.  The engine
@@ -656,13 +709,7 @@ public:
   Session& s;
   Session::TaskRec rec;
   UTask(Session& s, char k, const uv::RuleDef& d) : s(s) { rec.key = k; rec.def = d; }
-  ~UTask() override {
-    if (rec.available && !rec.completed)
-      s.violate("task-destroyed-while-computing", std::string("task for ") + rec.key + " received inputsAvailable, had not reported completion, and was destroyed by the engine");
-    auto it = s.running.find(rec.key);
-    if (it != s.running.end() && it->second == &rec) s.running.erase(it);
-    s.pending.erase(std::remove(s.pending.begin(), s.pending.end(), &rec), s.pending.end());
-  }
+  ~UTask() override { s.taskGone(&rec); }
   void start(TaskInterface ti) override { s.taskStart(rec, ti); }
   void providePriorValue(TaskInterface ti, const ValueType& v) override { s.taskPrior(rec, ti, v); }
   void provideValue(TaskInterface ti, uintptr_t id, const KeyType& k, const ValueType& v) override { s.taskProvide(rec, ti, id, k, v); }
@@ -682,6 +729,7 @@ public:
 };
 
 inline std::unique_ptr<Rule> Session::lookupRule(const KeyType& key) {
+  ev("lookup " + hexs(key.str()));
   char k = specKey(key.str());
   uv::RuleDef d;
   if (!uv::isLeafKey(k)) {
@@ -693,12 +741,97 @@ inline std::unique_ptr<Rule> Session::lookupRule(const KeyType& key) {
   return std::unique_ptr<Rule>(new URule(*this, k, d, key.str()));
 }
 
+inline void Session::taskGone(TaskRec* rec) {
+  if (rec->available && !rec->completed)
+    violate("task-destroyed-while-computing", std::string("task for ") + rec->key + " received inputsAvailable, had not reported completion, and was destroyed by the engine");
+  auto it = running.find(rec->key);
+  if (it != running.end() && it->second == rec) running.erase(it);
+  pending.erase(std::remove(pending.begin(), pending.end(), rec), pending.end());
+}
+
 inline Task* Session::ruleCreateTask(char k, const uv::RuleDef& d) {
+  auto* t = new UTask(*this, k, d);
+  registerTask(k, d, &t->rec);
+  return t;
+}
+
+// ---- libllbuild C API plumbing (C20) ------------------------------------------
+struct CRuleCtx { Session* s; char k; uv::RuleDef def; };
+inline void Session::newEngineC() {
+  if (cengine) { llb_buildengine_destroy(cengine); cengine = nullptr; }
+  llb_buildengine_delegate_t d{};
+  d.context = this;
+  d.destroy_context = nullptr;
+  d.lookup_rule = [](void* ctx, const llb_data_t* key, llb_rule_t* out) {
+    Session* s = static_cast<Session*>(ctx);
+    std::string kn((const char*)key->data, key->length);
+    s->ev("lookup " + hexs(kn));
+    char k = s->specKey(kn);
+    auto* rc = new CRuleCtx{s, k, uv::RuleDef()};
+    if (!uv::isLeafKey(k)) {
+      if (!s->w.rules.count(k)) s->violate("lookup-unknown-key", "engine asked for a rule for unknown key '" + hexs(kn) + "'");
+      else rc->def = uv::defOf(s->w, s->ext, k);
+    }
+    out->context = rc;
+    out->key = *key;
+    out->create_task = [](void* c, void*) -> llb_task_t* {
+      auto* rc = static_cast<CRuleCtx*>(c);
+      auto* rec = new TaskRec();
+      rec->key = rc->k;
+      rec->def = rc->def;
+      rec->owner = rc->s;
+      rc->s->registerTask(rc->k, rc->def, rec);
+      llb_task_delegate_t td{};
+      td.context = rec;
+      td.destroy_context = [](void* c) { auto* r = static_cast<TaskRec*>(c); r->owner->taskGone(r); delete r; };
+      td.start = [](void* c, void*, llb_task_interface_t ti) { auto* r = static_cast<TaskRec*>(c); r->cti = ti; r->owner->taskStart(*r, TaskInterface(nullptr, nullptr)); };
+      td.provide_value = [](void* c, void*, llb_task_interface_t ti, uintptr_t id, const llb_data_t* v) {
+        auto* r = static_cast<TaskRec*>(c);
+        r->cti = ti;
+        r->owner->taskProvide(*r, TaskInterface(nullptr, nullptr), id, KeyType(), ValueType(v->data, v->data + v->length));
+      };
+      td.inputs_available = [](void* c, void*, llb_task_interface_t ti) { auto* r = static_cast<TaskRec*>(c); r->cti = ti; r->owner->taskAvailable(*r, TaskInterface(nullptr, nullptr)); };
+      return llb_task_create(td);
+    };
+    out->is_result_valid = [](void* c, void*, const llb_rule_t*, const llb_data_t* v) -> bool {
+      auto* rc = static_cast<CRuleCtx*>(c);
+      return rc->s->ruleValid(rc->k, rc->def, ValueType(v->data, v->data + v->length));
+    };
+    out->update_status = [](void* c, void*, llb_rule_status_kind_t kind) {
+      auto* rc = static_cast<CRuleCtx*>(c);
+      rc->s->ruleStatus(rc->k, (Rule::StatusKind)kind);
+    };
+  };
+  d.error = [](void* ctx, const char* msg) { static_cast<Session*>(ctx)->error(Twine(msg)); };
+  d.cycle_detected = [](void* ctx, const llb_data_t* keys, uint64_t n) {
+    Session* s = static_cast<Session*>(ctx);
+    s->step();
+    ++s->cycleReports;
+    s->cycleReported = true;
+    std::string l = "cycle";
+    if (s->obs) { s->obs->cycle = true; s->obs->cycleKeys.clear(); }
+    for (uint64_t i = 0; i < n; ++i) {
+      std::string k((const char*)keys[i].data, keys[i].length);
+      l += " " + hexs(k);
+      if (s->obs) s->obs->cycleKeys.push_back(k);
+    }
+    s->ev(l);
+  };
+  cengine = llb_buildengine_create(d);
+  if (cfg.useDB) {
+    llb_data_t p{cfg.dbPath.size(), (const uint8_t*)cfg.dbPath.data()};
+    char* err = nullptr;
+    if (!llb_buildengine_attach_db(cengine, &p, cfg.clientVersion, &err)) violate("db-attach-failed", err ? err : "?");
+    free(err);
+  }
+}
+
+inline void Session::registerTask(char k, const uv::RuleDef& d, TaskRec* rec) {
   step();
+  ev(std::string("create ") + k);
   int n = ++created[k];
   if (obs) obs->executed += k;
-  auto* t = new UTask(*this, k, d);
-  running[k] = &t->rec;
+  running[k] = rec;
   issuedDeps[k].clear();
   if (cfg.checkC02) {
     if (n > 1) violate("multi-exec", std::string("rule ") + k + " executed " + std::to_string(n) + " times in one build");
@@ -715,7 +848,6 @@ inline Task* Session::ruleCreateTask(char k, const uv::RuleDef& d) {
       violate("unjustified-exec", std::string("rule ") + k + " was executed although it was built before, its signature and stored "
                                   "result are valid, no recorded dependency changed since it was last up to date, and it was not interrupted");
   }
-  return t;
 }
 
 inline void Session::determinedRuleNeedsToRun(Rule* rule, Rule::RunReason reason, Rule* input) {
@@ -820,19 +952,33 @@ inline BuildObs Session::build(const Event& ev) {
   ++buildNo;
   ++tick;
 
+  auto savedHook = verif::pointHook;
+  auto savedCtx = verif::pointHookContext;
   verif::pointHook = &hookTrampoline;
   verif::pointHookContext = this;
   inBuild = true;
   std::string value;
   try {
-    const ValueType& v = engine->build(keyName(ev.key));
-    value.assign(v.begin(), v.end());
+    std::string kn = keyName(ev.key);
+    this->ev("build " + hexs(kn));
+    if (cfg.capi) {
+      llb_data_t kd{kn.size(), (const uint8_t*)kn.data()};
+      llb_data_t out{0, nullptr};
+      llb_buildengine_build(cengine, &kd, &out);
+      value.assign((const char*)out.data, out.length);
+    } else {
+      const ValueType& v = engine->build(kn);
+      value.assign(v.begin(), v.end());
+    }
+    this->ev("result " + hexs(value));
+    if (!value.empty()) value = unwrapV(value);
   } catch (StallEscape&) {
     o.stalled = true;
     dead = true;
   }
   inBuild = false;
-  verif::pointHook = nullptr;
+  verif::pointHook = savedHook;
+  verif::pointHookContext = savedCtx;
   chooser = nullptr;
   o.steps = stepNo;
   o.trace = ch.trace;
@@ -841,7 +987,7 @@ inline BuildObs Session::build(const Event& ev) {
   if (ch.diverged) res.count("schedule_divergence");
   if (o.stalled) { obs = nullptr; return o; }
 
-  bool engineCancelled = engine->isCancelled();
+  bool engineCancelled = cfg.capi ? false : engine->isCancelled();
   o.success = !value.empty() && !o.cycle && !engineCancelled;
 
   // -- C05: cancellation oracles
@@ -878,7 +1024,7 @@ inline BuildObs Session::build(const Event& ev) {
     // engine cancelled itself (error path); make the engine usable again
     engine->resetForBuild();
   }
-  if (cancelIssued) engine->resetForBuild();
+  if (cancelIssued && !cfg.capi) engine->resetForBuild();
   obs = nullptr;
   return o;
 }
@@ -890,6 +1036,7 @@ inline void Session::apply(const Event& ev, BuildObs* out) {
   case 's': ext.s[ev.key] = ev.val; break;
   case 't': ext.o[ev.key] = "<tampered>"; break;
   case 'r': restart(); break;
+  case 'v': cfg.clientVersion += 1; disk.clear(); restart(); break;
   case 'd':
     if (ext.redefined.count(ev.key)) ext.redefined.erase(ev.key); else ext.redefined.insert(ev.key);
     restart();
@@ -906,10 +1053,10 @@ inline void Session::apply(const Event& ev, BuildObs* out) {
 // Canonical state: engine dump with rank-compressed epochs + database + external state.
 inline std::string Session::canonicalState() {
   std::string d;
-  engine->verifDumpState(d);
+  if (cfg.capi) d = "capi\n"; else engine->verifDumpState(d);
   std::string dbs;
   if (cfg.useDB) {
-    DBDump dd = readDatabase(cfg.dbPath);
+    DBDump dd = readDatabase(cfg.dbPath, cfg.clientVersion);
     dbs = "db epoch=" + std::to_string(dd.epoch) + "\n";
     for (auto& kv : dd.recs) dbs += "db " + kv.second.str() + "\n";
     if (!dd.ok) dbs += "db-error " + dd.error + "\n";
